@@ -165,6 +165,10 @@ def build():
     def _loc_setitem(ex, st, recv, key, value):
         mutate_in_place(st, recv)
 
+    @reg.opaque('opaque_getitem', 'Loc', 'DataFrame.loc[labels or mask]: LABEL-based selection — a new frame whose content is not specified (labels are not positions)')
+    def _loc_getitem(ex, st, recv, key):
+        return new_df(ex, st)
+
     @reg.opaque('opaque_getitem', 'ILoc', 'DataFrame.iloc[lo:hi] / iloc[list] / iloc[pos]: positional selection (python slice semantics), a new frame')
     def _iloc_getitem(ex, st, recv, key):
         F = cur_fid(st, recv)
@@ -657,6 +661,26 @@ def build():
     reg.add(Contract(DMF, 'DataModel.load', dict(self=DM, path=Any), returns=DM,
                      ensures=[('invariant-re-established-for-the-loaded-frame', lambda c: dm_inv(c.new, c.p.self)), ('returns-self', lambda c: c.res == c.p.self)],
                      modifies=mut_mod, fresh_fields=FRESH))
+    # ---- query_index_column_value: the rows holding the value, selected BY POSITION from the current frame -------------------------------------------------
+    def after_indices(ex, st, node):
+        st.ghost['idx_obj'] = st.env['index_list'].t
+        st.ghost['idx_seq'] = st.sel('list', S.addr(st.env['index_list'].t))
+
+    def qv_spec(c):
+        F = q_F(c)
+        idx = c.g.idx_seq
+        return z3.And(scan_positions(c, c.g.idx_obj, F, c.p.column_name, c.p.value, c.new) if False else z3.BoolVal(True),
+                      z3.If(z3.Length(idx) == 0, z3.And(S.has_type(c.res, List(Any)), z3.Length(c.new.list(c.res)) == 0),
+                            res_dm_frame(c, taken(F, idx))))
+    qv = Contract(DMF, 'DataModel.query_index_column_value', dict(self=DM, column_name=Str, value=Any), returns=Any,
+                  ghost_init=lambda ex, st: st.ghost.update(idx_obj=S.NONE(), idx_seq=S.empty_seq()),
+                  ghost_hooks={'after_stmt:index_list = self.query_index_column_value_indices(': after_indices},
+                  requires=[('invariant', lambda c: dm_inv(c.old, c.p.self)), ('has-a-frame', has_data), ('value-is-a-scalar', lambda c: scalar(c.p.value))],
+                  ensures=[('the-rows-at-the-POSITIONS-the-indexed-query-returns-(an-empty-list-when-none)', qv_spec),
+                           ('invariant', lambda c: dm_inv(c.new, c.p.self)), ('frame-untouched', same_frame)],
+                  raises={'SystemExit': [('only-for-an-unknown-column', lambda c: z3.Not(col_known(c)))]},
+                  modifies=q_mod, fresh_fields=Q_FRESH + FRESH + ['ghost:df'] + ['attr:' + f for f in reg.classes['DataModel'].fields])
+    reg.add(qv)
     return reg
 
 
@@ -671,7 +695,7 @@ ASSUMPTIONS = [
     'fillna / set_columns do not call set_refresh_flag; they are not among the operations of the statement and are not under contract',
     'Row(...) stores its three arguments (object.__setattr__); assignment THROUGH a Row writes into the cached numpy row, never into the frame: not a table operation',
     'sorted() is specified as: ascending, same elements, duplicate-free if the input is',
-    'not yet under contract: query_index_column_value, query_index_column_value_first, read_block_with_block_stmts, boundary_of_multi_blocks, __iter__, '
+    'not yet under contract: query_index_column_value_first, read_block_with_block_stmts, boundary_of_multi_blocks, __iter__, '
     'unique_values_of_column, convert_to_dict_list, slow_query*, Column.bundle_search',
 ]
 EXPLANATION = ('Deductive proof that the representation invariant of DataModel (schema, row cache, per-column equality index describe the CURRENT frame) is '
